@@ -24,7 +24,7 @@ fn parse_pub_priv_fields<B: BufRead>(
             let pp = PublicParams::try_from_reader(typ, Some(pub_len), &mut public)?;
 
             ensure!(
-                !public.has_remaining()?,
+                public.limit() == 0,
                 "PublicParams::try_from_reader didn't consume all data"
             );
             pp
@@ -57,6 +57,7 @@ fn private_key_parser_v4_v6<B: BufRead>(
     let pub_len = if *key_ver == KeyVersion::V6 {
         // "scalar octet count for the following public key material" -> pass on for checking
         let pub_len = i.read_be_u32()?;
+        ensure!(pub_len > 0, "key length must not be 0");
 
         Some(pub_len as usize)
     } else {
